@@ -110,6 +110,18 @@ def gen_case(ctx, gen, tier):
     raise RuntimeError("generator starved")
 
 
+def gen_long_case(ctx):
+    """non-converging runs with caps straddling 64 / 100 / 128 / 200 / 256: integer operator with zero diagonal (the mean is
+    ~0, so the relative standard error stays far above any admissible tolerance), Rademacher probes, exact tier"""
+    r = ctx.rng
+    n = r.choice([2, 2, 3])
+    D = [[0 if i == j else r.choice([-3, -2, 2, 3]) for j in range(n)] for i in range(n)]
+    mi = r.choice([63, 64, 65, 66, 70, 96, 100, 127, 128, 129, 130, 160, 200, 255, 256, 257])
+    t = dict(k="Dense", dt="float64", a=[[[v, 0] for v in row] for row in D])
+    return dict(tier="Z", n=n, k=r.choice([0, 0, 1 - n, n - 1]), max_iters=mi, tol=1.1e-3 * (1 + r.random()), key=None if r.random() < 0.3 else r.randint(0, 2 ** 31),
+                dt="float64", tree=t, D=np.array(D, dtype=np.float64).tolist(), rand="rademacher", long=True)
+
+
 def retype(t, dt):
     """all leaves of the tree in one real dtype"""
     t2 = dict(t)
